@@ -523,13 +523,44 @@ func ruleDedup(r *Run) {
 			if !ok || !strings.HasSuffix(calleeName(&c.Call), "executor.indexMap).Set") || len(c.Call.Args) != 4 {
 				continue
 			}
-			// the fallback key is strconv.Itoa(index): unique per request, no de-duplication
-			if kc, ok := c.Call.Args[3].(*ssa.Call); ok && calleeName(&kc.Call) == "strconv.Itoa" {
+			// a key chosen before a single Set call (`key := strconv.Itoa(index); if … { key = … }`)
+			// is a phi: each of its alternatives is a key of its own, handed on by the block the
+			// alternative comes from
+			var sites []dedupKeySite
+			unique := false
+			seenAlt := map[ssa.Value]bool{}
+			var expand func(v ssa.Value, at *ssa.BasicBlock)
+			expand = func(v ssa.Value, at *ssa.BasicBlock) {
+				if phi, ok := v.(*ssa.Phi); ok {
+					if seenAlt[v] {
+						return
+					}
+					seenAlt[v] = true
+					for i, e := range phi.Edges {
+						expand(e, phi.Block().Preds[i])
+					}
+					return
+				}
+				// the fallback key is strconv.Itoa(index): unique per request, no de-duplication
+				if kc, ok := v.(*ssa.Call); ok && calleeName(&kc.Call) == "strconv.Itoa" {
+					unique = true
+					return
+				}
+				if seenAlt[v] {
+					return
+				}
+				seenAlt[v] = true
+				sites = append(sites, resolveDedupKey(dedupKeySite{fn: set, vars: set.Params[3], key: v, at: at}, 0)...)
+			}
+			expand(c.Call.Args[3], c.Block())
+			if unique {
 				r.OK(rule, fnName(set), "unique key", r.P.pos(c.Pos()), "requests that are not id-only node lookups get a key that is unique per request (their index)")
+			}
+			if len(sites) == 0 {
 				continue
 			}
 			n++
-			for _, ks := range resolveDedupKey(dedupKeySite{fn: set, vars: set.Params[3], key: c.Call.Args[3], at: c.Block()}, 0) {
+			for _, ks := range sites {
 				fn, vars, key := ks.fn, ks.vars, ks.key
 				site := r.P.pos(c.Pos())
 				if fn != set {
